@@ -115,7 +115,7 @@ def run(name, script, total, start=0, limit=None, warm=0, batch=2, cap=1000, see
             mods.update({"policy": st.policy, "q": st.q, "policy_target": pt, "q_target": qt, "policy_optimizer": st.policy_optimizer, "q_optimizer": st.q_optimizer})
             tau = extra.get("tau", 0.25)
             kw = dict(seed=seed, total_timesteps=total, gamma=0.9, tau=tau, batch_size=batch, learning_starts=warm, replay_buffer=buf,
-                      policy_target=pt, q_target=qt, global_step=start, progress_bar=False)
+                      policy_target=pt, q_target=qt, global_step=start, progress_bar=False, logger=extra.get("logger"))
             if name == "ddpg":
                 out = train_ddpg(env, st.policy, st.policy_optimizer, st.q, st.q_optimizer, total_episodes=limit, **kw, **extra.get("kw", {}))
                 res["returned_step"] = int(out.steps_trained)
